@@ -275,6 +275,10 @@ fn urule_yaml(r: &URule) -> String {
     r.sev,
     r.kind
   );
+  // every other rule carries a fix: severity, selection and exit status must not depend on it
+  if r.id.bytes().last().map(|b| b % 2 == 0).unwrap_or(false) {
+    s.push_str("fix: 'fixed'\n");
+  }
   if let Some(f) = &r.files {
     s.push_str(&format!("files: {}\n", serde_json::to_string(f).unwrap()));
   }
@@ -904,7 +908,7 @@ pub fn cli(ctx: &Ctx, rng: &mut Rng, o: &mut Out) {
     let yaml: Vec<String> = ids
       .iter()
       .zip(&own)
-      .map(|(id, s)| format!("id: {id}\nlanguage: TypeScript\nseverity: {s}\nrule: {{kind: number}}\n"))
+      .map(|(id, s)| format!("id: {id}\nlanguage: TypeScript\nseverity: {s}\nrule: {{kind: number}}\n{}", if rng.chance(1, 2) { "fix: '0'\n" } else { "" }))
       .collect();
     std::fs::write(fixed.path().join("rules/all.yml"), yaml.join("---\n")).unwrap();
     let (occs, filter) = gen_flags(rng, &ids);
